@@ -71,7 +71,7 @@ Qed.
 Definition post_of (o : outcome (list Z)) (s17 : Z) : bool :=
   match o with
   | Ok bits' =>
-    let b16 := firstn 16 (skipn 1 (remove_pseudo 33 bits' 32)) in
+    let b16 := firstn 16 (skipn 1 (remove_pseudo 257 bits' 256)) in
     forallb (fun b => (0 <=? b) && (b <? 256)) b16 && (zsum b16 =? s17 - 1)
     && (t81_kraft b16 1 <=? 65536) && (length b16 =? 16)%nat
   | _ => false
@@ -79,7 +79,7 @@ Definition post_of (o : outcome (list Z)) (s17 : Z) : bool :=
 
 Lemma post_of_inv : forall o s17, post_of o s17 = true ->
   exists bits', o = Ok bits' /\
-    let b16 := firstn 16 (skipn 1 (remove_pseudo 33 bits' 32)) in
+    let b16 := firstn 16 (skipn 1 (remove_pseudo 257 bits' 256)) in
     forallb (fun b => (0 <=? b) && (b <? 256)) b16 = true /\ zsum b16 = s17 - 1 /\
     (t81_kraft b16 1 <=? 65536) = true /\ length b16 = 16%nat.
 Proof.
@@ -90,12 +90,12 @@ Qed.
 
 Lemma search_all :
   search 17 1 (2 ^ 17) 18 []
-    (fun b17 => post_of (limit_all sizes_32_17 (0 :: b17 ++ repeat 0 15)) (zsum b17)) = true.
+    (fun b17 => post_of (limit_all sizes_hi (0 :: b17 ++ repeat 0 239)) (zsum b17)) = true.
 Proof. vm_compute. reflexivity. Qed.
 
 Theorem post_ok : forall b17, length b17 = 17%nat -> Forall (fun b => 0 <= b) b17 -> zsum b17 <= 18 ->
   kraftw b17 1 = 2 ^ 17 ->
-  post_of (limit_all sizes_32_17 (0 :: b17 ++ repeat 0 15)) (zsum b17) = true.
+  post_of (limit_all sizes_hi (0 :: b17 ++ repeat 0 239)) (zsum b17) = true.
 Proof.
   intros b17 Hl Hnn Hs Hk.
   exact (search_sound 17 1 (2 ^ 17) 18 [] _ search_all ltac:(lia) b17 Hl Hnn Hs Hk).
